@@ -557,15 +557,26 @@ fn add_ids(mathml: Element) -> Element {
     let time_part = radix_fmt::radix(time, 36).to_string();
     let random_part = radix_fmt::radix(rand::random::<usize>(), 36).to_string();
     let prefix = "M".to_string() + &time_part[time_part.len() - 3..] + &random_part[random_part.len() - 4..] + "-"; // begin with letter
-    add_ids_to_all(mathml, &prefix, 0);
+    let mut seen_ids = std::collections::HashSet::new();
+    add_ids_to_all(mathml, &prefix, 0, &mut seen_ids);
     return mathml;
 
-    fn add_ids_to_all(mathml: Element, id_prefix: &str, count: usize) -> usize {
+    fn add_ids_to_all(mathml: Element, id_prefix: &str, count: usize, seen_ids: &mut std::collections::HashSet<String>) -> usize {
         let mut count = count;
-        if mathml.attribute("id").is_none() {
-            mathml.set_attribute_value("id", (id_prefix.to_string() + &count.to_string()).as_str());
-            mathml.set_attribute_value("data-id-added", "true");
+        // ids must be unique: an id that was already used earlier in the document (e.g., a duplicated author id) is replaced
+        let needs_id = match mathml.attribute_value("id") {
+            None => true,
+            Some(id) => !seen_ids.insert(id.to_string()),
+        };
+        if needs_id {
+            let mut id = id_prefix.to_string() + &count.to_string();
             count += 1;
+            while !seen_ids.insert(id.clone()) {
+                id = id_prefix.to_string() + &count.to_string();
+                count += 1;
+            }
+            mathml.set_attribute_value("id", id.as_str());
+            mathml.set_attribute_value("data-id-added", "true");
         };
 
         if crate::xpath_functions::is_leaf(mathml) {
@@ -574,7 +585,7 @@ fn add_ids(mathml: Element) -> Element {
 
         for child in mathml.children() {
             let child = as_element(child);
-            count = add_ids_to_all(child, id_prefix, count);
+            count = add_ids_to_all(child, id_prefix, count, seen_ids);
         }
         return count;
     }
